@@ -220,15 +220,73 @@ func Strip(v ssa.Value) ssa.Value {
 				return v
 			}
 			stores, esc := CellStores(al)
-			if esc || len(stores) != 1 {
+			if esc {
 				return v
 			}
-			v = stores[0].Val
+			if len(stores) == 1 {
+				v = stores[0].Val
+				continue
+			}
+			// several assignments: the one store of the same function that reaches this load on
+			// every path (it dominates the load and no other store can run in between)
+			s := reachingStore(x, al, stores)
+			if s == nil {
+				return v
+			}
+			v = s.Val
 		default:
 			return v
 		}
 	}
 	return v
+}
+
+var reachCache = map[*ssa.UnOp]*ssa.Store{}
+var reachDone = map[*ssa.UnOp]bool{}
+
+// reachingStore returns the unique store to the local variable al whose value
+// the load ld observes: all stores are in ld's function, the store dominates
+// the load and no other store lies on a path from it to the load.
+func reachingStore(ld *ssa.UnOp, al *ssa.Alloc, stores []*ssa.Store) *ssa.Store {
+	if reachDone[ld] {
+		return reachCache[ld]
+	}
+	reachDone[ld] = true
+	if ld.X != ssa.Value(al) {
+		return nil
+	}
+	for _, s := range stores {
+		if s.Parent() != ld.Parent() || s.Addr != ssa.Value(al) {
+			return nil // assigned from a closure or through a derived address: no local reasoning
+		}
+	}
+	isI := func(t ssa.Instruction) func(ssa.Instruction) bool {
+		return func(in ssa.Instruction) bool { return in == t }
+	}
+	var found *ssa.Store
+	for _, s := range stores {
+		if !InstrDominates(s, ld) {
+			continue
+		}
+		clean := true
+		for _, o := range stores {
+			if o == s {
+				continue
+			}
+			if Search(After(s), isI(o), isI(ld)) != nil && Search(After(o), isI(ld), isI(s)) != nil {
+				clean = false
+			}
+		}
+		// the store itself must not be re-executed between itself and the load in a way that matters: same value
+		if clean {
+			if found != nil {
+				return nil
+			}
+			found = s
+		}
+	}
+	reachCache[ld] = found
+	return found
 }
 
 // StripConv is Strip that also peels numeric/string conversions.
